@@ -2,3 +2,6 @@ import ForsysModel.Props.C08
 import ForsysModel.Props.C09
 import ForsysModel.Props.C11
 import ForsysModel.Props.C20
+import ForsysModel.Props.C18
+import ForsysModel.Props.C19
+import ForsysModel.Props.C14
